@@ -883,6 +883,13 @@ fn blp_total(seed: u64) -> String {
         cases.push((format!("BLP1 direct 2x2, locator offset {:#x} size {:#x}", off, size), blp_file(1, 1, 0, 2, 2, 0, offs, sizes, &vec![7u8; 1024 + 64])));
         cases.push((format!("BLP2 direct 2x2, locator offset {:#x} size {:#x}", off, size), blp_file(2, 1, 0, 2, 2, 0, offs, sizes, &vec![7u8; 1024 + 64])));
     }
+    // BLP2 with the other compression kinds (raw3 = 3, DXTC = 2 with each alpha type): same hostile locators
+    for comp in [2u8, 3] { for atype in [0u8, 1, 7, 8] { for (off, size) in [(0xFFFFFFF0u32, 0x20u32), (0xFFFFFFFF, 1), (200, 0xFFFFFFFF), (200, 0xFFFFFF80), (1180, 1), (1236, 0), (1235, 1), (1235, 2)] {
+        let mut offs = [0u32; 16]; let mut sizes = [0u32; 16]; offs[0] = off; sizes[0] = size;
+        let mut v = blp_file(2, 1, 0, 4, 4, 0, offs, sizes, &vec![7u8; 1024 + 64]);
+        v[8] = comp; v[9] = 8; v[10] = atype;
+        cases.push((format!("BLP2 compression {} alpha type {} 4x4, locator offset {:#x} size {:#x}", comp, atype, off, size), v));
+    }}}
     for (name, bytes) in cases {
         tried += 1;
         let b2 = bytes.clone();
@@ -970,6 +977,36 @@ fn blp_codec(seed: u64, alpha_focus: bool) -> String {
             }
         }
     }}}
+    // compressed targets: the structure (header flags that select the content kind on parse, level payloads) survives
+    // encode -> parse for every DXT kind with and without alpha (sizes that are multiples of the 4x4 block)
+    if !alpha_focus {
+        for &(w, h) in &[(4u32, 4u32), (8, 8), (16, 4)] { for mips in [false, true] { for has_alpha in [true, false] {
+            let targets = vec![
+                ("BLP2 dxt1", BlpTarget::Blp2(Blp2Format::Dxt1 { has_alpha, compress_algorithm: Default::default() })),
+                ("BLP2 dxt3", BlpTarget::Blp2(Blp2Format::Dxt3 { has_alpha, compress_algorithm: Default::default() })),
+                ("BLP2 dxt5", BlpTarget::Blp2(Blp2Format::Dxt5 { has_alpha, compress_algorithm: Default::default() })),
+            ];
+            for (tname, target) in targets {
+                let mut img = image::RgbaImage::new(w, h);
+                for p in img.pixels_mut() { let c = (rng.next() % 4) as u8 * 60; *p = image::Rgba([c, c / 2, 255 - c, 255]); }
+                let desc = format!("{} {}x{} has_alpha {} mipmaps {}", tname, w, h, has_alpha, mips);
+                tried += 1;
+                let r = catch(move || -> Result<(), String> {
+                    let blp = image_to_blp(image::DynamicImage::ImageRgba8(img), mips, target, FilterType::Nearest).map_err(|e| format!("image_to_blp: {}", e))?;
+                    let bytes = encode_blp(&blp).map_err(|e| format!("encode_blp: {}", e))?;
+                    let back = parse_blp(&bytes).map_err(|e| format!("parse of the encoded bytes failed: {}", e))?;
+                    if std::mem::discriminant(&back.content) != std::mem::discriminant(&blp.content) { return Err("encoded content kind is parsed back as a different kind".to_string()); }
+                    if back != blp { return Err(format!("parsed structure differs from the encoded one (header {:?} vs {:?})", back.header, blp.header)); }
+                    Ok(())
+                });
+                match r {
+                    Err(p) => return fail("blp_header", desc, format!("panic: {}", p), "round trip".into()),
+                    Ok(Err(e)) => return fail("blp_header", desc, e, "encode -> parse identical structure".into()),
+                    Ok(Ok(())) => {}
+                }
+            }
+        }}}
+    }
     none(if alpha_focus { "blp_alpha" } else { "blp_header" }, tried)
 }
 
